@@ -74,6 +74,14 @@ def branch_actions(body, names):
             if isinstance(c.func, ast.Attribute) and c.func.attr == 'pop' and isinstance(c.func.value, ast.Name) and c.args \
                     and isinstance(c.args[0], ast.Constant) and c.args[0].value == 0:
                 pops.add(c.func.value.id)
+        # the same advance spelled `del L[0]` or `L = L[1:]`
+        if isinstance(st, ast.Delete) and len(st.targets) == 1 and isinstance(st.targets[0], ast.Subscript) and isinstance(st.targets[0].value, ast.Name) \
+                and isinstance(st.targets[0].slice, ast.Constant) and st.targets[0].slice.value == 0:
+            pops.add(st.targets[0].value.id)
+        if isinstance(st, ast.Assign) and len(st.targets) == 1 and isinstance(st.targets[0], ast.Name) and isinstance(st.value, ast.Subscript) \
+                and isinstance(st.value.value, ast.Name) and st.value.value.id == st.targets[0].id and isinstance(st.value.slice, ast.Slice) \
+                and st.value.slice.upper is None and st.value.slice.step is None and isinstance(st.value.slice.lower, ast.Constant) and st.value.slice.lower.value == 1:
+            pops.add(st.targets[0].id)
     return emit, pops, reassigned
 
 
@@ -232,6 +240,127 @@ def _describe(d):
     for r in sorted(groups):
         out.append('='.join(sorted(groups[r])))
     return ['<'.join(out)]
+
+
+def check_append_helper(ix, rep, modname, rule='R-ORD'):
+    """`_append(out, sample)`: the emission step of the merge.  It may merge a sample into its predecessor only when the two *values* are equal
+    (the output is a step function: equal consecutive values are one step) and it must never drop anything else: on every path the sample is
+    appended when the list is empty or the last value differs; when the last value is equal it may be appended or not."""
+    m = ix.module(modname)
+    f = m.functions.get('_append')
+    if f is None:
+        return 0
+    rep.analysed(f)
+    rep.unit(m.rel)
+    ps = [a.arg for a in f.node.args.args]
+    if len(ps) != 2:
+        raise AnalysisError('%s: _append takes %d parameters' % (f.where, len(ps)))
+    L, item = ps
+    binds = {}
+
+    def text(e):
+        t = ast.unparse(e).replace(' ', '')
+        for k_, v_ in binds.items():
+            t = t.replace(k_ + '[', '(' + v_ + ')[')
+        return t.replace('(%s[-1])' % L, '%s[-1]' % L).replace('%s[len(%s)-1]' % (L, L), '%s[-1]' % L)
+
+    def atom(t):
+        """-> ('empty', truth) | ('valdiff', truth) | None"""
+        if isinstance(t, ast.UnaryOp) and isinstance(t.op, ast.Not):
+            a = atom(t.operand)
+            return None if a is None else (a[0], not a[1])
+        s_ = text(t)
+        if s_ == L:
+            return ('empty', False)
+        if s_ in ('len(%s)==0' % L, '%s==[]' % L):
+            return ('empty', True)
+        if s_ in ('len(%s)>0' % L, 'len(%s)!=0' % L, 'len(%s)>=1' % L):
+            return ('empty', False)
+        last, new = '%s[-1][1]' % L, '%s[1]' % item
+        if s_ in ('%s!=%s' % (last, new), '%s!=%s' % (new, last)):
+            return ('valdiff', True)
+        if s_ in ('%s==%s' % (last, new), '%s==%s' % (new, last)):
+            return ('valdiff', False)
+        return None
+    class _Idx(Exception):
+        pass
+    opaque = set()
+
+    def ev(t, world):
+        if isinstance(t, ast.BoolOp):
+            if isinstance(t.op, ast.And):
+                for v in t.values:
+                    if not ev(v, world):
+                        return False
+                return True
+            for v in t.values:
+                if ev(v, world):
+                    return True
+            return False
+        a_ = atom(t)
+        if a_ is None:
+            # a test on something else (times, lengths, ..): free -- both outcomes are tried
+            key = text(t)
+            opaque.add(key)
+            if ('%s[-1]' % L) in key and world['empty']:
+                raise _Idx()
+            return world['opaque'].get(key, False)
+        if a_[0] == 'empty':
+            return world['empty'] == a_[1]
+        if world['empty']:
+            raise _Idx()
+        return world['valdiff'] == a_[1]
+
+    def run(stmts, world):
+        """-> appended?"""
+        appended = False
+        for st in stmts:
+            if isinstance(st, ast.Assign) and len(st.targets) == 1 and isinstance(st.targets[0], ast.Name):
+                if ('%s[-1]' % L) in text(st.value) and world['empty']:
+                    raise _Idx()
+                binds[st.targets[0].id] = text(st.value)
+                continue
+            if isinstance(st, ast.Expr) and isinstance(st.value, ast.Constant) or isinstance(st, ast.Pass):
+                continue
+            if isinstance(st, ast.Expr) and isinstance(st.value, ast.Call) and text(st.value) == '%s.append(%s)' % (L, item):
+                appended = True
+                continue
+            if isinstance(st, ast.Return):
+                return appended, True
+            if isinstance(st, ast.If):
+                r, done = run(st.body if ev(st.test, world) else st.orelse, world)
+                appended = appended or r
+                if done:
+                    return appended, True
+                continue
+            raise AnalysisError('%s: statement `%s` of the emission helper is not interpreted' % (f.where, ast.unparse(st)[:60]))
+        return appended, False
+    bad = None
+    for world, must, what in (({'empty': True, 'valdiff': None}, True, 'the first sample'),
+                              ({'empty': False, 'valdiff': True}, True, 'a sample whose value differs from the last emitted one'),
+                              ({'empty': False, 'valdiff': False}, False, '')):
+        import itertools
+        opaque.clear()
+        world['opaque'] = {}
+        binds.clear()
+        try:
+            run(list(f.node.body), world)          # discovers the free tests
+            for vals in itertools.product((False, True), repeat=len(opaque)):
+                world['opaque'] = dict(zip(sorted(opaque), vals))
+                binds.clear()
+                appended, _ = run(list(f.node.body), world)
+                if must and not appended:
+                    bad = '%s is not appended%s' % (what, (' when `%s`' % ' and '.join('%s%s' % ('' if v else 'not ', k) for k, v in sorted(world['opaque'].items()))) if opaque else '')
+                    break
+        except _Idx:
+            bad = 'the last emitted sample is read while the list is still empty (IndexError on the first sample)'
+        if bad:
+            break
+    if bad:
+        rep.fail(rule, m.rel, '_append', 'emit-helper', 'the emission helper of the merge does not keep every change of value: %s' % bad, f.node.lineno)
+    else:
+        rep.ok(rule, m.rel, '_append', 'emit-helper', 'a sample is appended when the list is empty or its value differs from the last one; equal values may be merged', f.node.lineno)
+    return 1
 
 
 def check_finitary(ix, rep, modname, rule='R-ORD'):
